@@ -218,6 +218,13 @@ class Ctx:
         """
         props_name = props_name or self.pid
         ok_all = True
+        # forbidden-construct gate over the whole hand-written development
+        for root, _, files in os.walk(COQ):
+            for fn in files:
+                if fn.endswith(".v"):
+                    with open(os.path.join(root, fn)) as f:
+                        self.gate_text(f.read(), os.path.relpath(os.path.join(root, fn),
+                                                                 VERIF))
         for rel in extra:
             p = os.path.join(self.bdir, rel)
             with open(p) as f:
